@@ -23,3 +23,29 @@ NOT_APPLICABLE = {}
 
 # commits in /repo that add build-tag guarded hooks (none: overlay is used instead)
 HOOK_COMMITS = []
+
+CHECKS["C01"] = {
+    "level": "exploration",
+    "technique": "property-based testing (rapid): structured ClientHello generator -> JA3 of fingerprint.JA3Fingerprint/ja3.Bare vs an independent reference walker (pure layer), and utls handshakes through the whole proxy in a synctest bubble with the header observed at a recording backend (end-to-end layer)",
+    "rule": "case = generated ClientHello (cipher/extension/group/point-format lists with GREASE placed first/last/middle/only, empty and singleton lists, hellos without extensions, SNI/ALPN variants) [x protocol x write segmentation x requests per connection in the e2e layer]. Non-trivial = some list has GREASE at its first or last position, or is empty or a singleton, or the hello has no extensions; distinct by hash of the record bytes (and script).",
+    "level_text": "Generated-input search against an independent JA3 reference (own ClientHello walker, no tlsx/cryptobyte): tens of thousands of hello shapes per run in the pure layer and real utls handshakes end to end. Absence of a counterexample in the explored space, not a proof.",
+    "level_note": "Trusted: the reference walker and JA3 string builder in harness/ref/hello (calibrated against the Salesforce examples), crypto/tls's own parser as the definition of 'accepted by the TLS stack', utls as hello producer.",
+    "assumptions": ["hellos are generated well-formed by construction and additionally filtered by crypto/tls's parser", "go1.26.8 toolchain"],
+    "units": [
+        {"name": "c01", "pkg": "c01", "run": "^Test", "shards": 8},
+    ],
+    "expect_checks": ["c01.pure"],
+}
+
+CHECKS["C02"] = {
+    "level": "exploration",
+    "technique": "property-based testing (rapid): JA4 value vs an independent reference, metamorphic permutation/GREASE-insertion invariance, and shape regex, on generated ClientHellos (pure layer) and through real utls handshakes (end-to-end layer)",
+    "rule": "case = generated ClientHello + a variant produced by drawn JA4-preserving edits (permute ciphers, permute extensions, insert/alter GREASE in ciphers, extensions, groups, supported_versions, signature_algorithms, key_share). Non-trivial = at least two edits applied, or a list with >= 99 entries, or ALPN / signature_algorithms / supported_versions in an edge class; distinct by hash of both records.",
+    "level_text": "Generated-input search with three oracles (reference value, metamorphic invariance, shape); absence of counterexamples in the explored space, not a proof.",
+    "level_note": "Trusted: JA4 reference in harness/ref/hello written from the property statement (version from highest non-GREASE supported_versions, counts capped at 99, first+last ALPN character, sorted lists, sigalgs in order, GREASE ignored everywhere).",
+    "assumptions": ["where the statement leaves the value open (ALPN whose last byte is non-ASCII) only invariance and shape are judged", "go1.26.8 toolchain"],
+    "units": [
+        {"name": "c02", "pkg": "c02", "run": "^Test", "shards": 8},
+    ],
+    "expect_checks": ["c02.pure"],
+}
